@@ -72,6 +72,24 @@ func (c *Ctx) Emit(op, implOut string, nontrivial bool) {
 	}
 }
 
+// Observe counts one evaluation of a direct oracle (no model line): used where the tie to the
+// source is a regenerated inventory and the property is observed on the implementation itself.
+func (c *Ctx) Observe(key string, nontrivial bool) {
+	c.meta.Evaluations++
+	if nontrivial {
+		h := fnv.New64a()
+		h.Write([]byte(key))
+		k := h.Sum64()
+		if _, ok := c.seen[k]; !ok {
+			c.seen[k] = struct{}{}
+			c.meta.Distinct++
+		}
+	}
+	if len(c.meta.Samples) < 12 && (c.meta.Evaluations%211 == 1 || len(c.meta.Samples) < 3) {
+		c.meta.Samples = append(c.meta.Samples, key)
+	}
+}
+
 func (c *Ctx) Count(key string) { c.meta.Dist[key]++ }
 
 func (c *Ctx) Law(ok bool, class, law, input, detail string) {
